@@ -93,6 +93,18 @@ CHECKS = {
         "neutral, swap flips, csv/markdown file = console text without colour codes.",
         "Trusted: the reference table (labels, unit factors; 120 lines). Disk-usage-per-field rows are not generated.",
     ),
+    "C08": (
+        "exploration",
+        "bounded-exhaustive enumeration of metric-record multisets through the real in-memory store, GlobalStatsCalculator and "
+        "FileRaceStore round trip, against exact-rational reference statistics and a warm-up-removal differential",
+        "DESIGN.md §4 C08",
+        "Every multiset of <= 5 (thorough 6) (value, sample type) pairs over 6 values, every success-flag count vector, and structured "
+        "streams at the percentile-set boundaries (9..10000 samples) for two tasks sharing an operation: percentile set by normal count, "
+        "percentile values = linear interpolation (exact rationals), monotone, within [min,max], p100=max, p50=median, mean/min/max of raw "
+        "normal values, error rate = failed/all normal, results identical with warm-up records removed, race.json round trip reproduces "
+        "as_flat_list and per-task metrics.",
+        "Trusted: the reference statistics (40 lines). Only the in-memory store; the Elasticsearch-backed store is out of reach offline.",
+    ),
 }
 
 NOT_YET = {}
